@@ -233,7 +233,8 @@ def gen_case(rng, mode=None, focus=None):
         if nm != me:
             others.append([nm, 'file' if nm == 'afile' or rng.random() < 0.08 else 'dir'])
     if focus == 'sizes' and not [o for o in others if o[1] == 'dir' and o[0] not in ('attic', '.hidden')]:
-        others.append([rng.choice(['2024-01-01.1', '2024-01-09.1']), 'dir'])
+        nm = rng.choice(['2024-01-01.1', '2024-01-09.1'])
+        others = [o for o in others if o[0] != nm] + [[nm, 'dir']]
     case['builddir'] = me
     case['others'] = others
     if mode == 'robsd' or rng.random() < 0.2:
